@@ -33,6 +33,9 @@ pub enum Broken {
     /// the closure fails inside a built-in store command given a malformed argument
     /// (`.cat --last-id "not-an-id"`): a closure error like any other
     BadBuiltinArg,
+    /// the closure pipes a list stream into `.append`, which takes a string, binary, record or
+    /// nothing: a closure error like any other
+    StreamIntoAppend,
     /// the definition script does not parse
     Parse,
     /// no `run` field
@@ -95,7 +98,7 @@ pub fn strategy() -> BoxedStrategy<C19Case> {
             2 => (1u8..5).prop_map(Output::Stream),
             1 => (2u8..5, 0u8..4).prop_map(|(n, k)| Output::StreamErr(n, k % n)),
         ],
-        prop_oneof![8 => Just(Broken::No), 2 => Just(Broken::RuntimeError), 1 => Just(Broken::BadBuiltinArg), 1 => Just(Broken::Parse), 1 => Just(Broken::NoRun)],
+        prop_oneof![8 => Just(Broken::No), 2 => Just(Broken::RuntimeError), 1 => Just(Broken::BadBuiltinArg), 1 => Just(Broken::StreamIntoAppend), 1 => Just(Broken::Parse), 1 => Just(Broken::NoRun)],
         (prop_oneof![3 => Just(false), 1 => Just(true)], proptest::bool::weighted(0.15)),
         prop_oneof![2 => Just(false), 1 => Just(true)],
         prop_oneof![3 => Just(0u8), 1 => Just(15u8), 1 => Just(40u8)],
@@ -168,6 +171,9 @@ fn render(def: &Def) -> String {
     }
     if def.broken == Broken::RuntimeError {
         s.push_str("    error make {msg: \"boom\"}\n");
+    }
+    if def.broken == Broken::StreamIntoAppend {
+        s.push_str("    [1 2] | each {|x| $x} | .append other.effect | ignore\n");
     }
     if def.broken == Broken::BadBuiltinArg {
         s.push_str("    .cat --last-id \"not-an-id\" | ignore\n");
@@ -364,7 +370,7 @@ fn run_in(case: &C19Case, nu: &mut Nu) -> Result<CaseInfo, Fail> {
         }
         let recvs: Vec<&&WFrame> = mine.iter().filter(|w| w.topic == format!("{n}{suffix}")).collect();
         let errored = terminals[0].topic.ends_with(".error");
-        let expect_error = matches!(def.broken, Broken::RuntimeError | Broken::BadBuiltinArg);
+        let expect_error = matches!(def.broken, Broken::RuntimeError | Broken::BadBuiltinArg | Broken::StreamIntoAppend);
         match expected_values(def) {
             Some(vals) if !expect_error => {
                 if errored {
